@@ -24,6 +24,7 @@ class Path:
         self.name, self.cfg = name, cfg
         self.ciphered = cfg.ek is not None
         self.mic = cfg.mic + 10
+        self.mch = MCH
 
     def seal(self, inner, ic=None):
         ic = self.next_ic() if ic is None else ic
@@ -38,7 +39,7 @@ class Path:
         if kind == "aare":
             res, mech = extra or (0, None)
             title = MT if self.ciphered or mech == 5 else None
-            chal = MCH if mech == 5 else None
+            chal = self.mch if mech == 5 else None
             if self.ciphered:
                 ct, ic = self.seal("init.127.500")
                 ui = f"glo:{self.cfg.suite + 48}:{ic}:{ct}"
@@ -138,6 +139,9 @@ class C03(fw.Prop):
         out = [["send", k, 1] for k in cl.REQUESTS] + [["send", "rlrq", 0]]
         for res, mech in ((0, None), (1, None), (2, None), (0, 5), (0, 1), (1, 5)):
             out.append(p.resp("aare", (res, mech)))
+        # an AARE whose user-information is not an initiate response (a meter that rejects sends a confirmed-service-error)
+        for res in (0, 1, 2):
+            out.append(["recv", ["aare", str(res), "none", MT if p.ciphered else "none", "none", "other"], None])
         for k in ["rlre", "getRespNormal", "getRespErr", "getRespBlock", "getRespLastBlock", "getRespLastBlockErr", "setResp", "actResp",
                   "actRespErr", "exceptionResp", "dataNotif", "confirmedServiceErr", "initiateResp"]:
             out.append(p.resp(k))
